@@ -7,6 +7,12 @@
 (*          afterwards: they must be the fold of the model's AddOp         *)
 (*   iter   a value, the byte order of its member names, the sequence the  *)
 (*          value iterator produced, and whether it stayed exhausted       *)
+(*   iterx  the same traversal through the other methods of the iterator:  *)
+(*          `first` elements taken with next(), then skip(`skip`) and      *)
+(*          step_by(`step`) to the end; count() and last() after `first`   *)
+(*          calls of next().  They must visit the same elements: the       *)
+(*          first ones, then every step-th of what follows the skipped     *)
+(*          ones.                                                          *)
 (***************************************************************************)
 EXTENDS IppAttrs, Json, IOUtils
 Rec == ndJsonDeserialize(IOEnv.TRACE)
@@ -18,7 +24,18 @@ AttrsOK(e) ==
   /\ \A i \in 1..Len(e.groups_of) :
        NormMsg(e.groups_of[i].gs) = NormMsg(GroupsOf(want, e.groups_of[i].k))
 IterOK(e) == e.seq = Iter(e.v, e.morder) /\ e.fused
-Step(e) == CASE e.ev = "attrs" -> AttrsOK(e) [] e.ev = "iter" -> IterOK(e) [] OTHER -> FALSE
+MinN(a, b) == IF a < b THEN a ELSE b
+IterXOK(e) ==
+  LET full == Iter(e.v, e.morder)
+      n    == Len(full)
+      a    == MinN(e.first, n)
+      rest == SubSeq(full, e.first + e.skip + 1, n)
+      m    == (Len(rest) + e.step - 1) \div e.step
+      jump == [i \in 1..m |-> rest[(i - 1) * e.step + 1]]
+  IN /\ e.seq = SubSeq(full, 1, a) \o jump
+     /\ e.count = n - a
+     /\ e.last = (IF a < n THEN <<full[n]>> ELSE <<>>)
+Step(e) == CASE e.ev = "attrs" -> AttrsOK(e) [] e.ev = "iter" -> IterOK(e) [] e.ev = "iterx" -> IterXOK(e) [] OTHER -> FALSE
 Init == l = 1
 Next == l <= Len(Rec) /\ Step(Rec[l]) /\ l' = l + 1
 Spec == Init /\ [][Next]_l
